@@ -93,6 +93,32 @@ def main():
                            "rerun": "cd /verif && python3 bin/check.py C03 --replay <this file>"})
             break
     run.cov["concurrent_state_machines"] = {"runs": attempt + 1, "evaluations_per_run": 2 * k * 1000}
+    # RE-ENTRANT evaluation (harness family csmreent): the action of state 1 evaluates state 2 of the same machine. Evaluation only
+    # reads the state table, so the nested call must behave like any other: state 2's action (4) fires exactly when its causaloid is
+    # true, the nested call succeeds (101), and the outer action fires once (50) exactly when state 1's causaloid is true.
+    n_re = 0
+    if not run.violations:
+        for outer in (1, 0):
+            for inner in (1, 0):
+                for via_all in (0, 1):
+                    ln = f"csmreent {outer} {inner} {via_all}"
+                    rc, outs, err = run_lines(bins["release"], [ln], line_timeout=30)
+                    run.cov["evaluations"] += 1
+                    o = outs[0] if outs else "<no answer>"
+                    log = ([50] + ([4] if inner else []) + [101]) if outer else []
+                    if via_all:
+                        log = sorted(log + ([4] if inner else []))          # eval_all_states also evaluates state 2 itself
+                    want = [1, 2] + log
+                    if o.split() == [str(x) for x in want]:
+                        n_re += 1; continue
+                    run.violation({"kind": "property-oracle-failed-on-implementation", "concurrent": True, "harness_line": ln, "got": o,
+                                   "why": f"re-entrant evaluation (the action of state 1 evaluates state 2 of the same machine; outer causaloid {'true' if outer else 'false'}, inner {'true' if inner else 'false'}, "
+                                          f"outer call {'eval_all_states' if via_all else 'eval_single_state'}): answered {o}; expected {' '.join(map(str, want))} (ok, len, fired actions: 50 = outer, 4 = inner, 101 = nested call ok; -999 = panic)",
+                                   "expected": " ".join(map(str, want)), "rerun": "cd /verif && python3 bin/check.py C03 --replay <this file>"})
+                    break
+                if run.violations: break
+            if run.violations: break
+    run.cov["re_entrant_evaluations"] = {"issued": 8, "as_required": n_re}
     proof_failure_violation(run, found or run.violations)
     run.cov["rule"] = ("histories of up to 40 operations over at most 6 registered ids: new / add / remove / update / eval_single(id, data) / eval_all / update_all / len, ids aimed at "
                        "registered ones (75%) or arbitrary; 24 pooled causal states (two function kinds, stored data with true / false / error codes, ids shared by three states each) and "
